@@ -19,7 +19,7 @@ RULE = ('unique-label cut molecules (as C01) whose base graph gets 1-3 fragment-
         'all three constructors. Oracle: the fine molecule equals the ground truth and the molecule resolved without the '
         'insertions; every real coarse node still owns exactly the atoms of its own fragment (multiset of element + H '
         'count, fragment name, heavy-atom count); virtual nodes own no atoms. Fault half: the same insertion with order '
-        '1-4 must raise SyntaxError. Order-0 edges written through the multiplier syntax: the molecule as n unconnected copies '
+        '1-4 must raise SyntaxError. Hierarchies whose base graph gets a fragment-less node named like a fragment that only a deeper block defines (blocks are separate name spaces). Order-0 edges written through the multiplier syntax: the molecule as n unconnected copies '
         '"{[#R](rest).|n}" whose anchor fragment carries a surplus self-complementary descriptor (a bond would form if the edge had an '
         'order), and fragment-less nodes ".[#VX].([#VY]).|k". distinct = (feature set, #heavy, #fragments); non-trivial = at least one virtual node.')
 ASSUMPTIONS = ['fragment names are unique per coarse node in this workload, so a coarse node is identified by its name']
@@ -36,6 +36,12 @@ def cases(seed, tier, shard, nshards):
     rng = random.Random(f'{seed}:C11:{tier}:{shard}')
     made = 0
     while made < SIZES[tier] // nshards:
+        if rng.random() < 0.08:
+            z = lower_level_name_case(rng)
+            if z is not None:
+                made += 1
+                yield z
+            continue
         if rng.random() < 0.12:
             z = zero_multiplier_case(rng)
             if z is not None:
@@ -95,6 +101,48 @@ def zero_multiplier_case(rng):
     frag_string = c['frag_string'][:m.start(1)] + text + c['frag_string'][m.end(1):]
     return dict(c, kind='zero_mult', base_string=base_string, frag_string=frag_string, copies=n, virtual_names=[], alt_base_strings=[],
                 features=sorted(set(c['features']) | {'copies_by_zero_multiplier'}))
+
+
+def lower_level_name_case(rng):
+    """a hierarchy (3+ blocks) whose BASE graph gets a fragment-less node that carries a name defined only in a deeper
+    block: every block is a name space of its own, so the node is virtual at its level and stays inert"""
+    m = MC.random_multilevel_case(rng, rng.choice([6, 10]), coarse_last=False)
+    if m is None:
+        return None
+    blocks = re.findall(r'\{[^\}]+\}', m['multi_string'])
+    if len(blocks) < 3:
+        return None
+    defined = lambda b: set(re.findall(r'(?:(?<=\{)|(?<=,))#(\w+)=', b))
+    first = defined(blocks[1])
+    deeper = sorted({x for b in blocks[2:] for x in defined(b)} - first - set(re.findall(r'\[#(\w+)', blocks[0])))
+    if not deeper:
+        return None
+    name = rng.choice(deeper)
+    base = blocks[0][:-1] + '.[#%s]' % name + ('.[#%s]' % rng.choice(deeper) if rng.random() < 0.3 else '') + '}'
+    return dict(kind='lower_level_name', multi_string=base + '.' + '.'.join(blocks[1:]), plain_string=m['multi_string'], truth=m['truth'],
+                virtual_names=[name], features=sorted(set(m['features']) | {'virtual_node_named_like_a_fragment_of_a_deeper_level'}))
+
+
+def run_lower_level_name(case):
+    from cgsmiles import MoleculeResolver
+    contracts.clear()
+    viol = []
+    truth = MC.truth_from_json(case['truth'])
+    s = case['multi_string']
+    try:
+        cg0 = None
+        for step, (cg, aa) in enumerate(MoleculeResolver.from_string(s).resolve_iter()):
+            if step == 0:
+                for k, d in cg.nodes(data=True):
+                    if d.get('fragname') in case['virtual_names'] and d.get('graph') is not None and len(d['graph']):
+                        viol.append(V('c11.virtual_node_has_atoms', f'{s}: the fragment-less base node {d.get("fragname")} owns fine nodes {sorted(d["graph"].nodes)[:6]}'))
+        heavy, problems = M.collapse_h(aa)
+        if problems or not M.same_molecule(heavy, truth):
+            viol.append(V('c11.molecule_changed', f'{s} -> {M.describe(heavy)}; without the fragment-less node the molecule is {M.describe(truth)}'))
+    except Exception as err:
+        viol.append(V('c11.exception.' + type(err).__name__, f'{s} raised {type(err).__name__}: {err} (without the fragment-less node: {case["plain_string"]})'))
+    contracts.clear()
+    return {'violations': viol, 'nontrivial': True, 'sample': s, 'cls': ('lower_level_name', tuple(case['features']))}
 
 
 def run_zero_mult(case):
@@ -178,6 +226,8 @@ def run(case):
         return run_reuse(case)
     if case.get('kind') == 'zero_mult':
         return run_zero_mult(case)
+    if case.get('kind') == 'lower_level_name':
+        return run_lower_level_name(case)
     contracts.clear()
     viol = []
     txt = MC.case_text(case)
